@@ -2,7 +2,10 @@
 MODULE = "pyxform.section"
 
 Elem = Opaque("Elem")
+XNode = Opaque("XNode")
+S2 = Obj("SurveyS2", name=str)
 declare_fields("Elem", name=str, type=str)
+declare_isinstance("Elem")
 
 
 @spec
@@ -31,3 +34,182 @@ def _(self: Obj("Section", name=str, children=List[Elem])) -> None:
         invariant(forall_str(lambda s: (s in element_slugs) == LowerInPrefix(ch, i, s)))
         invariant(forall(0, i, lambda k: not LowerInPrefix(ch, k, ch[k].name.lower())))
         hint(LowerInPrefix(ch, i + 1, ch[i].name.lower()) or True)
+
+
+# ---------------------------------------------------------------- repeat template (C04, C02): jr:template copy of a repeat
+
+@spec
+def ChildInst(e: Elem, append_template: bool) -> XNode:
+    """Instance subtree of one child (family contract of xml_instance: InstShape)."""
+    uninterpreted()
+
+
+@spec
+def TemplateInst(e: Elem) -> XNode:
+    """Template subtree of a nested repeat (RepeatingSection.template_instance)."""
+    uninterpreted()
+
+
+@contract("Elem.xml_instance")
+def _(self: Elem, survey: S, append_template: bool = False) -> XNode:
+    trusted("family contract of xml_instance on an element reference (Question/Section/EntityDeclaration overrides)")
+    ensures(result == ChildInst(self, append_template))
+    may_raise(PyXFormError, when=True)
+
+
+@contract("Elem.template_instance")
+def _(self: Elem, survey: S) -> XNode:
+    trusted("RepeatingSection.template_instance = generate_repeating_template of the nested repeat")
+    ensures(result == TemplateInst(self))
+    may_raise(PyXFormError, when=True)
+
+
+@spec
+def TemplateKids(ch: List[Elem], i: int) -> List[XNode]:
+    """C04: the template holds one node per child row in sheet order — external instances contribute none (they are
+    declared as secondary instances), a nested repeat contributes its own template, any other row its instance node."""
+    if i <= 0:
+        return []
+    c = ch[i - 1]
+    if is_a(c, "ExternalInstance"):
+        return TemplateKids(ch, i - 1)
+    if is_a(c, "RepeatingSection"):
+        return TemplateKids(ch, i - 1) + [TemplateInst(c)]
+    return TemplateKids(ch, i - 1) + [ChildInst(c, False)]
+
+
+@contract("Section.generate_repeating_template")
+def _(self: Obj("Section", name=str, children=List[Elem]), survey: S, **kwargs: Dict[str, str]) -> XNode:
+    properties("C04", "C02", "C17")
+    no_native("needs survey-element objects: exercised through the e2e oracles")
+    may_raise(PyXFormError, when=True)
+    ch = self.children
+    ensures(result.nodeType == 1 and result.tagName == self.name)
+    ensures(len(keys(result.attrs)) == 1 and keys(result.attrs)[0] == "jr:template" and result.attrs["jr:template"] == "")
+    ensures(result.kids == TemplateKids(ch, len(ch)))
+
+    @loop(0, index="i")
+    def _():
+        invariant(result.nodeType == 1 and result.tagName == self.name and len(keys(result.attrs)) == 1
+                  and keys(result.attrs)[0] == "jr:template" and result.attrs["jr:template"] == "")
+        invariant(result.kids == TemplateKids(ch, i))
+
+
+# ---------------------------------------------------------------- instance subtree of a section (C04, C02): InstShape
+
+SectionK = Obj("Section", name=str, children=List[Elem], instance=Opt[Dict[str, str]])
+
+
+@spec
+def SubstIn(survey: S2, text: str, ctx: SectionK) -> str:
+    """insert_xpaths(text, context=section): reference substitution (C03)."""
+    uninterpreted()
+
+
+@spec
+def FlatKids(e: Elem) -> List[XNode]:
+    """Instance nodes of a flat group's children, spliced into the parent (xml_instance_array)."""
+    uninterpreted()
+
+
+@spec
+def ElemFlat(e: Elem) -> Opt[bool]:
+    uninterpreted()
+
+
+@spec
+def TemplateNode(e: Elem) -> XNode:
+    """The jr:template copy of a repeat (generate_repeating_template, proved above on its record view)."""
+    uninterpreted()
+
+
+@contract("Elem.get")
+def _(self: Elem, key: str) -> Opt[bool]:
+    trusted("SurveyElement.get(\"flat\"): the flat slot of a group")
+    requires(key == "flat")
+    ensures(result == ElemFlat(self))
+
+
+@contract("Elem.xml_instance_array")
+def _(self: Elem, survey: S) -> List[XNode]:
+    trusted("Section.xml_instance_array of a flat group")
+    ensures(result == FlatKids(self))
+    may_raise(PyXFormError, when=True)
+
+
+@contract("Elem.generate_repeating_template")
+def _(self: Elem, survey: S) -> XNode:
+    trusted("family view of Section.generate_repeating_template (proved on its record view)")
+    ensures(result == TemplateNode(self))
+    may_raise(PyXFormError, when=True)
+
+
+@contract("SurveyS2.insert_xpaths")
+def _(self: S2, text: str, context: SectionK) -> str:
+    trusted("reference substitution (C03)")
+    ensures(result == SubstIn(self, text, context))
+    may_raise(PyXFormError, when=True)
+
+
+@spec
+def IsFlat(c: Elem) -> bool:
+    return has_attr(c, "flat") and bool(ElemFlat(c))
+
+
+@spec
+def InstKids(ch: List[Elem], i: int, tmpl: bool) -> List[XNode]:
+    """C04: one node per child row in sheet order, nested as the rows nest; a flat group's nodes are spliced in;
+    external instances contribute nothing; a repeat met outside a template context is preceded by its jr:template
+    copy and is itself rendered in template context (so nested repeats inside it do not get a second template)."""
+    if i <= 0:
+        return []
+    c = ch[i - 1]
+    if IsFlat(c):
+        return InstKids(ch, i - 1, tmpl) + FlatKids(c)
+    if is_a(c, "ExternalInstance"):
+        return InstKids(ch, i - 1, tmpl)
+    if is_a(c, "RepeatingSection") and not tmpl:
+        return InstKids(ch, i - 1, tmpl) + [TemplateNode(c), ChildInst(c, True)]
+    return InstKids(ch, i - 1, tmpl) + [ChildInst(c, tmpl)]
+
+
+@contract("Section.xml_instance")
+def _(self: SectionK, survey: S2, **kwargs: Dict[str, str]) -> XNode:
+    properties("C04", "C02", "C17")
+    no_native("needs survey-element objects: exercised through the e2e oracles")
+    kwargs_shapes({}, {"append_template": bool})
+    functional("SectionInstance")
+    locals(attributes=Dict[str, str])
+    may_raise(PyXFormError, when=True)
+    ch = self.children
+    tmpl = bool(kwargs.get("append_template", False))
+    A = some(self.instance)
+    ensures(result.nodeType == 1 and result.tagName == self.name)
+    # instance:: attributes of the row, each after reference substitution, and nothing else
+    ensures(implies(not bool(self.instance), len(keys(result.attrs)) == 0))
+    ensures(implies(bool(self.instance), keys(result.attrs) == keys(A)
+                    and forall(0, len(keys(A)), lambda q: result.attrs[keys(A)[q]] == SubstIn(survey, A[keys(A)[q]], self))))
+    ensures(result.kids == InstKids(ch, len(ch), tmpl))
+
+    @loop(0, index="q")
+    def _():
+        invariant(keys(attributes) == keys(A))
+        invariant(forall(0, q, lambda r: attributes[keys(A)[r]] == SubstIn(survey, A[keys(A)[r]], self)))
+        invariant(forall(q, len(keys(A)), lambda r: attributes[keys(A)[r]] == A[keys(A)[r]]))
+
+    @loop(1, index="i")
+    def _():
+        invariant(result.nodeType == 1 and result.tagName == self.name)
+        invariant(implies(not bool(self.instance), len(keys(result.attrs)) == 0))
+        invariant(implies(bool(self.instance), keys(result.attrs) == keys(A)
+                          and forall(0, len(keys(A)), lambda q: result.attrs[keys(A)[q]] == SubstIn(survey, A[keys(A)[q]], self))))
+        invariant(bool(append_template) == tmpl)
+        invariant(result.kids == InstKids(ch, i, tmpl))
+
+    @loop(2, index="g")
+    def _():
+        invariant(result.nodeType == 1 and result.tagName == self.name)
+        invariant(implies(not bool(self.instance), len(keys(result.attrs)) == 0))
+        invariant(implies(bool(self.instance), keys(result.attrs) == keys(A)
+                          and forall(0, len(keys(A)), lambda q: result.attrs[keys(A)[q]] == SubstIn(survey, A[keys(A)[q]], self))))
+        invariant(result.kids == InstKids(ch, i, tmpl) + FlatKids(child)[:g])
